@@ -205,6 +205,35 @@ Section DictProofs.
       intro k. rewrite Hg. cbn. destruct (last_val ss k); reflexivity.
   Qed.
 
+  (** [last_val] really is the last value paired with the key *)
+  Lemma last_val_snoc : forall ss k v k',
+    last_val (ss ++ [(k, v)]) k' = if keqb k' k then Some v else last_val ss k'.
+  Proof.
+    induction ss as [|[k0 v0] ss IH]; intros k v k'.
+    - cbn. destruct (keqb k' k); reflexivity.
+    - cbn [app Dict.last_val]. rewrite IH. destruct (keqb k' k); [reflexivity|].
+      destruct (last_val ss k'); reflexivity.
+  Qed.
+
+  Lemma last_val_none : forall ss k, last_val ss k = None <-> ~ In k (map fst ss).
+  Proof.
+    induction ss as [|[k0 v0] ss IH]; intro k; cbn.
+    - intuition.
+    - destruct (last_val ss k) eqn:E.
+      + split; [discriminate|]. intro H. exfalso.
+        assert (N : ~ In k (map fst ss)) by (intro; apply H; right; assumption).
+        apply IH in N. congruence.
+      + destruct (keqb k k0) eqn:E2.
+        * apply keqb_spec in E2. subst. split; [discriminate|]. intro H. exfalso. apply H. left. reflexivity.
+        * apply keqb_false in E2. split; [|reflexivity]. intros _ [H|H]; [congruence|].
+          apply (proj1 (IH k) E). exact H.
+  Qed.
+
+  Theorem last_val_is_last : forall ss k v,
+    (forall k', last_val (ss ++ [(k, v)]) k' = if keqb k' k then Some v else last_val ss k') /\
+    (last_val ss k = None <-> ~ In k (map fst ss)).
+  Proof. intros. split; [intro; apply last_val_snoc|apply last_val_none]. Qed.
+
   (** * enumerations *)
 
   Lemma enum_nodup : forall i m, NoDup (map fst m) -> NoDup (map fst (enum i m)).
